@@ -124,7 +124,7 @@ func c02MapModel(maxPre, steps int) {
 		vis := c02Visible(e, now)
 		nOps := 10
 		if steps > 1 {
-			nOps = 9 // (histories of two operations: without the batch put)
+			nOps = 8 // (histories of two operations: without the batch put and the relative expiry)
 		}
 		switch rt.Choice(tag, nOps) {
 		case 9: // batch put of a live record, or of the deleted version of a record
